@@ -140,9 +140,10 @@ def direct_differential(run, tier, prefixes=('C07.',)):
         'challenged': [('C', 2), ('P', 2, 'bang'), ('X', 2, 'login.svc', 'cur', 'MORE')],
         'gone': [('C', 2), ('P', 2, 'x'), ('D', 2)],
         'unlinked': [('C', 2), ('P', 2, 'x'), ('X', 2, 'login.svc', 'cur', 'UNL')],
+        'decided': [('C', 2), ('H', 2), ('X', 2, 'drone.svc', 'cur', 'OK')],
     }
     if tier == 'quick':
-        Y = {k: Y[k] for k in ('pending-login', 'answered-login', 'challenged', 'unlinked', 'hurried')}
+        Y = {k: Y[k] for k in ('pending-login', 'answered-login', 'challenged', 'unlinked', 'hurried', 'gone', 'decided')}
 
     def concrete(srv, syms):
         ctx = {'cur': {}, 'old': {}, 'serial': 0}
